@@ -270,7 +270,12 @@ fn synth(cmd: &str, args: &[String]) -> i32 {
 			"c09" => cases.retain(|c| c.ver == (3, 16, 0) && c.gecko.is_none()),
 			_ => {}
 		}
-		oracles::search(name, &cases, check, hang, t0)
+		let rc = oracles::search(name, &cases, check, hang, t0);
+		if rc == 0 && name == "c06" {
+			// stack depth: a stack overflow aborts the whole process, so the probe runs in a child process
+			return c06_deep_probe(&cases[0]);
+		}
+		rc
 	} else {
 		let Some(id) = args.first() else {
 			eprintln!("usage: replay {} <case-id>", name);
@@ -389,6 +394,45 @@ fn by_id(cmd: &str, args: &[String]) -> i32 {
 	}
 }
 
+/// A replay whose metadata element nests `DEEP` maps, read under every option combination (run in a child process).
+const DEEP: usize = 200_000;
+fn c06_deep(spec: &gen::Spec) -> i32 {
+	let (bytes, exp) = gen::build(spec);
+	let mut file = bytes[..exp.tail_off].to_vec();
+	file.extend_from_slice(b"U\x08metadata{");
+	for _ in 0..DEEP {
+		file.extend_from_slice(b"U\x01a{");
+	}
+	file.extend(std::iter::repeat(b'}').take(DEEP + 2));
+	for (skip, hash) in [(false, false), (true, false), (false, true), (true, true)] {
+		let o = peppi::io::slippi::de::Opts { skip_frames: skip, compute_hash: hash, ..Default::default() };
+		let r = std::panic::catch_unwind(|| peppi::io::slippi::read(std::io::Cursor::new(&file), Some(&o)).map(|_| ()).map_err(|e| e.to_string()));
+		if r.is_err() {
+			println!("c06-deep: the reader panicked");
+			return 1;
+		}
+	}
+	println!("c06-deep ok: {} nested metadata maps are answered with a value or an error", DEEP);
+	0
+}
+
+fn c06_deep_probe(spec: &gen::Spec) -> i32 {
+	let exe = std::env::current_exe().expect("own path");
+	let out = std::process::Command::new(exe).arg("c06-deep").arg(spec.case_id()).output();
+	match out {
+		Ok(o) if o.status.success() => 0,
+		Ok(o) => {
+			println!("WITNESS c06-deep {}", spec.case_id());
+			println!("c06 VIOLATED: reading a replay whose metadata nests {} maps ended the process abnormally ({}): {}", DEEP, o.status, String::from_utf8_lossy(&o.stderr).lines().last().unwrap_or(""));
+			1
+		}
+		Err(e) => {
+			println!("NOTE c06-deep probe could not be started: {}", e);
+			0
+		}
+	}
+}
+
 fn main() {
 	let args: Vec<String> = std::env::args().skip(1).collect();
 	if args.is_empty() {
@@ -405,6 +449,10 @@ fn main() {
 		"c07s-scan" => match args.get(1).map(|a| gen::Spec::parse(a)) {
 			// c07s-scan <case-id> <none|lz4|zstd>: every prefix of the archive, classified (diagnostic)
 			Some(Ok(spec)) => slpp_oracles::c07s_scan(&spec, args.get(2).map_or("none", |s| s.as_str())),
+			_ => 3,
+		},
+		"c06-deep" => match args.get(1).map(|a| gen::Spec::parse(a)) {
+			Some(Ok(spec)) => c06_deep(&spec),
 			_ => 3,
 		},
 		"cases" => {
